@@ -176,8 +176,10 @@ func TestSharedValuesBaseline(t *testing.T) {
 func drawTemplates(t *rapid.T, max int, light bool) []template {
 	n := rapid.IntRange(1, max).Draw(t, "ntemplates")
 	tps := make([]template, n)
+	// one case in 24 also dials over loopback TCP (bounded: every such dial costs an ephemeral port)
+	tcp := rapid.IntRange(0, 23).Draw(t, "loopback-tcp") == 0
 	for i := range tps {
-		tps[i] = drawTemplate(t, light)
+		tps[i] = drawTemplate(t, light, tcp)
 	}
 	return tps
 }
@@ -366,8 +368,10 @@ func TestInterleavedSessions(t *testing.T) {
 
 		// the interleaving
 		c := &sched{lastSess: -1}
+		env := newEnv()
 		for i := range use {
 			s := newSession(base+ids[i], &tps[use[i]])
+			s.env = env
 			s.io = c.onIO
 			c.ss = append(c.ss, s)
 		}
@@ -414,6 +418,7 @@ func TestInterleavedSessions(t *testing.T) {
 		order := append([]int(nil), c.order...)
 
 		msg := guard(c.run)
+		tcpQuiesce()
 		hx.Eval()
 		classCase("interleaved", tps, use)
 		hx.Class(fmt.Sprintf("interleaved/schedule=%s/nested=%v/handoff=%v", mode, c.nested > 0, c.handoffs > 0))
@@ -503,11 +508,13 @@ func TestConcurrentSessions(t *testing.T) {
 
 		runtime.GOMAXPROCS(procs)
 		ss := make([]*session, n)
+		env := newEnv() // first used inside the concurrent phase
 		var inflight, overlapped int32
 		var wg sync.WaitGroup
 		start := make(chan struct{})
 		for i := range use {
 			s := newSession(base+1+i, &tps[use[i]])
+			s.env = env
 			if y := s.tpl.Yield; y > 0 {
 				cnt := 0
 				s.io = func() {
@@ -540,6 +547,7 @@ func TestConcurrentSessions(t *testing.T) {
 		}
 		close(start)
 		wg.Wait() // every goroutine of the case has ended here
+		tcpQuiesce()
 		runtime.GOMAXPROCS(prevProcs)
 
 		hx.Eval()
